@@ -196,17 +196,17 @@ SYMS = {
 # are not applicable at their position are skipped and the histories deduplicated by what was actually done
 EXH = [
     # the life cycle of one persistent connection: partial request, rest, deferred answer, idle, timeout, abort, close
-    (dict(to=2, ab=1, mode=[1, 0, 1], ver=[1, 1, 1]), ["d1", "d6", "f", "a1", "a2", "lost"], 6, 7),
+    (dict(to=2, ab=1, mode=[1, 0, 1], ver=[1, 1, 1]), ["d1", "req", "f", "a1", "a2", "lost"], 5, 6),
     # pipelining: two and a bit requests at once, answers now / later
-    (dict(to=2, ab=2, mode=[1, 1, 0], ver=[1, 1, 1]), ["d7", "d12", "w", "f", "a1", "a2", "lost"], 5, 6),
+    (dict(to=2, ab=2, mode=[1, 1, 0], ver=[1, 1, 1]), ["d7", "d12", "w", "f", "a1", "a2", "lost"], 4, 6),
     # bytes that keep arriving after the timeout closed the connection, timeOut < abortTimeout (ODDITIES 1, 3, 4)
-    (dict(to=1, ab=3, mode=[0, 0, 0], ver=[1, 1, 1]), ["d1", "d6", "a1", "a2", "lost"], 7, 8),
-    (dict(to=1, ab=2, mode=[0, 1, 0], ver=[1, 1, 1]), ["d1", "d4", "f", "a1", "a3", "lost"], 6, 7),
+    (dict(to=1, ab=3, mode=[0, 0, 0], ver=[1, 1, 1]), ["d1", "req", "a1", "a2", "lost"], 5, 7),
+    (dict(to=1, ab=2, mode=[0, 1, 0], ver=[1, 1, 1]), ["req", "d1", "f", "a1", "a3", "lost"], 5, 6),
     # HTTP/1.0 request in the middle; malformed request line
-    (dict(to=2, ab=1, mode=[0, 1, 0], ver=[1, 0, 1]), ["d6", "d2", "bad", "f", "a1", "a2", "lost"], 5, 6),
+    (dict(to=2, ab=1, mode=[0, 1, 0], ver=[1, 0, 1]), ["req", "d2", "bad", "f", "a1", "a2", "lost"], 4, 6),
     # no forced abort / no idle timeout configured
-    (dict(to=2, ab=NONE, mode=[0, 1, 0], ver=[1, 1, 1]), ["d1", "d6", "f", "a2", "bad", "lost"], 5, 6),
-    (dict(to=NONE, ab=1, mode=[1, 0, 0], ver=[1, 1, 0]), ["d2", "d6", "f", "a3", "bad", "lost"], 5, 6),
+    (dict(to=2, ab=NONE, mode=[0, 1, 0], ver=[1, 1, 1]), ["d1", "req", "f", "a2", "bad", "lost"], 5, 6),
+    (dict(to=NONE, ab=1, mode=[1, 0, 0], ver=[1, 1, 0]), ["d2", "req", "f", "a3", "bad", "lost"], 5, 6),
 ]
 
 
@@ -308,14 +308,14 @@ def run(ctx):
     ctx.require_actions("HttpTimeoutsMC", ACTIONS)
     # vacuity of the "~late" guards: with late bytes the guarded parts really fail in the model (ODDITIES 3, 4)
     for cfgfile, what in [("HttpTimeoutsMC.reach.cfg", "a forced-abort call survives connectionLost (ODDITY 4)"),
-                          ("HttpTimeoutsMC.reach2.cfg", "abortConnection is called twice (ODDITY 3)")]:
+                          ("HttpTimeoutsMC.reach2.cfg", "abortConnection is called twice (ODDITY 3)")][:ctx.pick(1, 2)]:
         r = ctx.mc("HttpTimeoutsMC", cfgfile, must_pass=False, coverage=False, label="vacuity: reachable: " + what)
         if r.ok or r.kind != "invariant":
             raise MachineryError("vacuity: %s expected reachable, got ok=%s kind=%s" % (what, r.ok, r.kind))
 
     traces = exhaustive_histories(ctx)
     nexh = len(traces)
-    for _ in range(ctx.pick(1500, 30000)):
+    for _ in range(ctx.pick(1500, 15000)):
         traces.append(run_history(random_cfg(ctx.rng), random_ops(ctx.rng)))
     ctx.note_traces(traces)
     ctx.extra["histories"] = dict(exhaustive_short=nexh, seeded_random=len(traces) - nexh, **stats(traces))
